@@ -294,6 +294,8 @@ QuiescentV(s, e) ==
     [] \E o \in s.dead : Referenced(s, o) -> <<"C01", "a destroyed value is still referenced">>
     [] e.busy # 0 -> <<LP(s), "a read transaction was left open at a quiescent point">>
     [] e.wr # 0 -> <<"C11", "a writer reservation was left behind at a quiescent point">>
+    [] \E i, j \in 1..Len(e.spaces) : i < j /\ e.spaces[i] = e.spaces[j] /\ e.spaces[i] > 0
+         -> <<"C01+C03", "two threads' bookkeeping share one hand-over envelope at a quiescent point (a later helped load can be handed another load's value)">>
     [] Len(e.inuse) > 2 * s.peak + 1
          -> <<"C11", "more per-thread bookkeeping exists than twice the peak number of threads alive at once (not reused)">>
     [] OTHER -> OK
